@@ -1,0 +1,11 @@
+//go:build !verif
+
+package simapp
+
+import (
+	storetypes "cosmossdk.io/store/types"
+	"github.com/cosmos/cosmos-sdk/codec"
+)
+
+// verifWrapTransferKeepers does nothing in ordinary builds.
+func (app *SimApp) verifWrapTransferKeepers(codec.Codec, map[string]*storetypes.KVStoreKey) {}
